@@ -917,7 +917,7 @@ func TestCheck(t *testing.T) {
 		cases = append(cases, c)
 	} else {
 		cases = append(cases, vh.LoadCorpus[Case](env, "C03")...)
-		r := vh.NewRand(env.Seed)
+		r := vh.NewRand(env.Seed).Fork() // Fork: vh streams of consecutive seeds are the same sequence shifted by one step
 		n := env.N(1200, 5)
 		maxOps := 12
 		if env.Tier == "thorough" {
